@@ -142,7 +142,7 @@ class QueueSource(Source[Iterable[Any]]):
         except (EOFError,BrokenPipeError,TypeError):
             pass
 
-from http.client import HTTPResponse
+from http.client import HTTPResponse, IncompleteRead
 
 class HttpSource(Source[Union[str,Iterable[str]]]):
     """Get content from a web URL."""
@@ -197,6 +197,9 @@ class HttpSource(Source[Union[str,Iterable[str]]]):
                 with bites as b:
                     while chunk := b.read(size):
                         yield decode(decomp(chunk))
+                    #when the connection is closed before Content-Length bytes have arrived read(size) simply
+                    #returns b'' (only read() without a size raises) so we have to look for this ourselves.
+                    if getattr(b,'length',None): raise IncompleteRead(b'',b.length)
                     yield decode(b'',True)
 
             return DelimSource(IterableSource(chunks(decomp,charset,chunk,bites))).read()
